@@ -5,3 +5,6 @@ use std::io;
 #[verifier::external_type_specification]
 #[verifier::external_body]
 pub struct ExIoError(std::io::Error);
+// the length of a slice is a usize (language fact; vstd only exposes it through exec `len()`)
+#[verifier::external_body]
+pub proof fn axiom_slice_len_bound<T>(s: &[T]) ensures s@.len() <= usize::MAX {}
